@@ -1,9 +1,215 @@
 import UF.Driver.Decode
+import UF.Model.Match
+import UF.Model.ParseOptions
+import UF.Model.NewRule
+import UF.Spec.Match
 /- Ops of work group E (see notes/AGENT_GUIDE.md). Return `none` for ops of other groups. -/
 namespace UF.Ops
 
-def dispatchE (op : String) (args : List W) : Option String :=
+/-! ### Encoders: the same single-token format as harness/wire.go (`wnetrule`). -/
+
+def encStrs (l : List Bytes) : String := outList (l.map outBytes)
+def encNats (l : List Nat) : String := outList (l.map toString)
+
+def encPrefix (p : Prefix) : String :=
+  outList [outBool p.addr.is4, toString p.addr.val, toString p.bits]
+
+def encClients : Option Clients → String
+  | none => "_"
+  | some c => outList [encStrs c.hosts, outList (c.nets.map encPrefix)]
+
+def encValue : RRVal → String
+  | .none => "_"
+  | .addr a => outList ["addr", outBool a.is4, toString a.val]
+  | .str s => outList ["str", outBytes s]
+  | .mx p e => outList ["mx", toString p, outBytes e]
+  | .srv p w po t => outList ["srv", toString p, toString w, toString po, outBytes t]
+  | .svcb p t ps =>
+    outList ["svcb", toString p, outBytes t,
+      match ps with
+      | none => "_"
+      | some kv => outList (kv.map fun (k, v) => outList [outBytes k, outBytes v])]
+
+def encRewrite : Option DnsRewrite → String
+  | none => "_"
+  | some d => outList [toString d.rcode, toString d.rrType, outBytes d.newCNAME, encValue d.value]
+
+def encNetRule (r : NetRule) : String :=
+  outList ["R", outBytes r.text, toString r.listID, outBool r.whitelist, outBytes r.pattern, outBytes r.shortcut,
+    encStrs r.permDomains, encStrs r.restrDomains, encStrs r.denyallow, encNats r.permDns, encNats r.restrDns,
+    encStrs r.permTags, encStrs r.restrTags, encClients r.permClients, encClients r.restrClients,
+    toString r.enabled, toString r.disabled, toString r.permTypes, toString r.restrTypes, encRewrite r.rewrite]
+
+/-! ### Oracle tables of the parser ops -/
+
+/-- prefix table: `((string prefix|_)…)`. -/
+def decPrefixTable (w : W) : Option (List (Bytes × Option Prefix)) := do
+  let xs ← w.list?
+  xs.mapM fun e => match e with
+    | .l [s, p] => do
+      let s ← s.bytes?
+      if p.isNone then pure (s, none) else pure (s, some (← decPrefix p))
+    | _ => none
+
+/-- rewrite table: `((value err|rewrite)…)`. -/
+def decRewriteTable (w : W) : Option (List (Bytes × Option DnsRewrite)) := do
+  let xs ← w.list?
+  xs.mapM fun e => match e with
+    | .l [s, .a "err"] => do pure (← s.bytes?, none)
+    | .l [s, rw] => do
+      let s ← s.bytes?
+      let rw ← decRewrite rw
+      pure (s, rw)
+    | _ => none
+
+/-- regexp shortcut table: `((pattern shortcut)…)`. -/
+def decShortcutTable (w : W) : Option (List (Bytes × Bytes)) := do
+  let xs ← w.list?
+  xs.mapM fun e => match e with
+    | .l [p, s] => do pure (← p.bytes?, ← s.bytes?)
+    | _ => none
+
+def mkParseExt (psl : List (Bytes × (Bytes × Bool))) (addrs : List (Bytes × Option Addr))
+    (prefixes : List (Bytes × Option Prefix)) (rewrites : List (Bytes × Option DnsRewrite))
+    (shortcuts : List (Bytes × Bytes)) (pats : List ((Bytes × Bool × Bytes) × Bool)) : E.ParseExt where
+  ext := { mkExt psl addrs pats with parsePrefix := tableLookup prefixes none }
+  loadDNSRewrite := tableLookup rewrites none
+  regexpShortcut := tableLookup shortcuts []
+
+/-- Is the model exact on this parse?  `strings.ToLower` of the shortcut is modelled for ASCII only
+    (the ASCII lower-casing keeps non-ASCII bytes, so a non-ASCII candidate shows in the result). -/
+def parseInDomain (x : E.PE NetRule) : Bool :=
+  match x with
+  | .ok r => Bytes.isAscii r.shortcut
+  | .error _ => true
+
+def outParse (x : E.PE NetRule) : String :=
+  match x with
+  | .ok r => (encNetRule r).replace " " ","   -- answers are single tokens without blanks
+  | .error .err => "err"
+  | .error .panic => "PANIC"
+
+/-- `c04.parse <text> <listID> <addrs> <prefixes> <rewrites> <reshortcuts>`: the model of
+    `NewNetworkRule`, printed in the format of `wnetrule`. -/
+def opC04Parse (args : List W) : String :=
+  match args with
+  | [text, id, addrs, prefixes, rewrites, shortcuts] =>
+    match text.bytes?, id.int?, decAddrTable addrs, decPrefixTable prefixes, decRewriteTable rewrites,
+        decShortcutTable shortcuts with
+    | some text, some id, some addrs, some prefixes, some rewrites, some shortcuts =>
+      let px := mkParseExt [] addrs prefixes rewrites shortcuts []
+      let res := E.parseNetRule px text id
+      if !parseInDomain res then "ood -" else outParse res ++ " -"
+    | _, _, _, _, _, _ => "bad-decode"
+  | _ => "bad-arity"
+
+/-- `c04.match <R> <Q> <psl> <addrs> (<pat>…)`: model = `NetRule.matches`, spec = `specMatch`
+    (from the modifier values); `ood` outside the request domain of C04. -/
+def opC04Match (args : List W) : String :=
+  match args with
+  | [r, q, psl, addrs, pats] =>
+    match decNetRule r, decRequest q, decPslTable psl, decAddrTable addrs, decPatTable pats with
+    | some r, some q, some psl, some addrs, some pats =>
+      if !q.inDomainB then "ood ood" else
+      let ext := mkExt psl addrs pats
+      outBool (r.matches ext q) ++ " " ++ outBool (specMatch ext r q)
+    | _, _, _, _, _ => "bad-decode"
+  | _ => "bad-arity"
+
+/-- `c04.textmatch <text> <listID> <addrs> <prefixes> <rewrites> <reshortcuts> <Q> <psl> (<pat>…)`:
+    model = `(parseNetRule text).matches q`, spec = `specMatch (parseNetRule text) q` — the
+    reference of the property computed from the rule TEXT. -/
+def opC04TextMatch (args : List W) : String :=
+  match args with
+  | [text, id, addrs, prefixes, rewrites, shortcuts, q, psl, pats] =>
+    match text.bytes?, id.int?, decAddrTable addrs, decPrefixTable prefixes, decRewriteTable rewrites,
+        decShortcutTable shortcuts, decRequest q, decPslTable psl, decPatTable pats with
+    | some text, some id, some addrs, some prefixes, some rewrites, some shortcuts, some q, some psl, some pats =>
+      let px := mkParseExt psl addrs prefixes rewrites shortcuts pats
+      let res := E.parseNetRule px text id
+      if !parseInDomain res || !q.inDomainB then "ood ood" else
+      match res with
+      | .ok r => outBool (r.matches px.ext q) ++ " " ++ outBool (specMatch px.ext r q)
+      | .error .err => "err err"
+      | .error .panic => "PANIC PANIC"
+    | _, _, _, _, _, _, _, _, _ => "bad-decode"
+  | _ => "bad-arity"
+
+/-- trim table: `((string TrimSpace(string))…)`; an unknown key is returned unchanged (a wrong
+    model split then shows as a disagreement). -/
+def decTrimTable (w : W) : Option (List (Bytes × Bytes)) := do
+  let xs ← w.list?
+  xs.mapM fun e => match e with
+    | .l [s, t] => do pure (← s.bytes?, ← t.bytes?)
+    | _ => none
+
+def trimOf (tbl : List (Bytes × Bytes)) (k : Bytes) : Bytes :=
+  match tbl.find? (·.1 == k) with
+  | some (_, v) => v
+  | none => k
+
+/-- `c12.newrule <line> <listID> <trim table> <H|err> <addrs> <prefixes> <rewrites> <reshortcuts>`:
+    the model of `rules.NewRule`; `TrimSpace` and `NewHostRule` are oracles (groups D and H). -/
+def opC12NewRule (args : List W) : String :=
+  match args with
+  | [line, id, trims, host, addrs, prefixes, rewrites, shortcuts] =>
+    let hostRule : Option (Option HostRule) :=
+      match host with
+      | .a "err" => some none
+      | h => (decHostRule h).map some
+    match line.bytes?, id.int?, decTrimTable trims, hostRule, decAddrTable addrs, decPrefixTable prefixes,
+        decRewriteTable rewrites, decShortcutTable shortcuts with
+    | some line, some id, some trims, some hostRule, some addrs, some prefixes, some rewrites, some shortcuts =>
+      let rx : E.RuleExt := {
+        px := mkParseExt [] addrs prefixes rewrites shortcuts []
+        trim := trimOf trims
+        newHostRule := fun _ _ => hostRule }
+      let out := match E.newRule rx line id with
+        | .ok none => "none"
+        | .ok (some r) =>
+          let kind := match r with | .net _ => "net" | .host _ => "host" | .cos _ => "cos"
+          kind ++ ":" ++ outBytes r.text ++ ":" ++ toString r.listID
+        | .error .err => "err"
+        | .error .panic => "PANIC"
+      out ++ " -"
+    | _, _, _, _, _, _, _, _ => "bad-decode"
+  | _ => "bad-arity"
+
+/-! ### The text-level helpers one by one (`c04.units`) -/
+
+def outPE {α} (f : α → String) (x : E.PE α) : String :=
+  match x with
+  | .ok a => f a
+  | .error .err => "err"
+  | .error .panic => "PANIC"
+
+def opC04Units (op : String) (args : List W) : Option String :=
   match op, args with
+  | "c04.domainname", [s] => some <|
+    match s.bytes? with
+    | some s => outPE outBool (E.isDomainNameC s) ++ " -"
+    | none => "bad-decode"
+  | "c04.split", [s, sep, esc, pres] => some <|
+    match s.bytes?, sep.nat?, esc.nat?, pres.bool? with
+    | some s, some sep, some esc, some pres =>
+      outPE (fun l => (encStrs l).replace " " ",") (E.splitWithEscapeCharacter s sep.toUInt8 esc.toUInt8 pres) ++ " -"
+    | _, _, _, _ => "bad-decode"
+  | "c04.ruletext", [s] => some <|
+    match s.bytes? with
+    | some s => outPE (fun (p, o, wl) => "(" ++ outBytes p ++ "," ++ outBytes o ++ "," ++ outBool wl ++ ")") (E.parseRuleText s) ++ " -"
+    | none => "bad-decode"
+  | "c04.shortcut", [s] => some <|
+    match s.bytes? with
+    | some s => outPE outBytes (E.findShortcut s) ++ " -"
+    | none => "bad-decode"
   | _, _ => none
+
+def dispatchE (op : String) (args : List W) : Option String :=
+  match op with
+  | "c04.match" => some (opC04Match args)
+  | "c04.parse" => some (opC04Parse args)
+  | "c04.textmatch" => some (opC04TextMatch args)
+  | "c12.newrule" => some (opC12NewRule args)
+  | _ => opC04Units op args
 
 end UF.Ops
